@@ -184,3 +184,14 @@ package parser
 //@ loop 1 invariant modes: !(inComment && inRaw)
 //@ ensures acceptsIffClosed: (result1 == nil) ==> len(stack) == 0 && !inComment && !inRaw && result0 != nil
 //@ ensures one: (result1 == nil) != (result0 == nil)
+
+// Parse = Scan + parseTokens (C05, C06, C07, C01)
+//@ func (parser.Config).Parse
+//@ props C06 C05 C07 C01
+//@ panics nothing
+//@ assigns *
+//@ ghost perr Val = nil
+//@ ghost pnode Val = nil
+//@ at call parseTokens #1: pnode = result0
+//@ at call parseTokens #1: perr = result1
+//@ ensures same: result0 == pnode && result1 == perr
